@@ -10,11 +10,12 @@ ID = 'C08'
 LEVEL = 'fault_enumeration'
 BUDGET = {'quick': (3000, 80.0), 'thorough': (60000, 1500.0)}
 CHUNK = 40
-RULE = ('enumeration: for each shape (RTS/CTS windows 1, 2, all and BAM; J1939-21 and -22; 5 packets) a traced clean run lists every source-line '
+RULE = ('enumeration: for each shape (RTS/CTS windows 1, 2, all, asymmetric 255/2, paced with a 1 ms packet interval, and BAM; J1939-21 and -22; 3-5 packets) a traced clean run lists every source-line '
         'event executed by each stack\'s job thread during the transfer; then one run per (stack, file, line, n-th hit) parks that thread there for '
         '0.2 / 1 / 5 ms of bus time (cycled over the points in quick, all three in thorough) while frame reception on the same stack continues. '
         'Sampled runs draw two pre-emption points, random sizes, windows and latencies in (0, 1 ms]. non-trivial = the chosen pre-emption fired; '
         'distinct = distinct scenario JSON')
+FAULT_COUNTERS = {'stall: job thread parked at a source line while reception continues (runs)': 'preempt_fired_runs', 'frames received while the job thread was parked': 'rx_while_parked'}
 REQUIRED_PROBES = ['preempt_fired_runs', 'rx_while_parked']
 O_ADDR, R_ADDR = 0x11, 0x22
 HOLDS_US = [200, 1000, 5000]
@@ -34,6 +35,14 @@ def shapes():
         for win in (1, 2, 255):
             out.append(base_scn(dll, 'cmdt', win))
         out.append(base_scn(dll, 'bam', 1, npk=3))
+        # asymmetric windows (the responder's setting limits the burst) and paced connection-mode packets
+        a = base_scn(dll, 'cmdt', 255)
+        a['stacks'][1]['max_cmdt'] = 2
+        out.append(a)
+        b = base_scn(dll, 'cmdt', 3, npk=4)
+        for st in b['stacks']:
+            st['rts_cts_interval'] = 0.001
+        out.append(b)
     return out
 
 
